@@ -82,11 +82,38 @@ def gen_stampede(rng, threads, n):
     return {"kind": "conc", "threads": [[{"name": p + ".hot", "ts": 1 + i // 2} for i in range(n)] for _ in range(threads)]}
 
 
+# names that share a register as soon as the 64-bit FNV-1a key is narrowed (32-bit FNV-1a / FNV-1, the low or high half of the
+# 64-bit key, the two halves folded): distinct names, so each must keep its own newest timestamp.  Each pair is used by one
+# case per run only (the order state is process-wide).
+NARROW = {
+    "fnv32a": [("costarring", "liquid"), ("declinate", "macallums"), ("altarage", "zinke"), ("lrktz", "mgfsbvpl"), ("gcxfvf", "aufiq")],
+    "fnv32": [("tktdxgok", "lastt"), ("tplhwme", "kjerlad"), ("yawpuyyb", "mlysc")],
+    "lo32_fnv64a": [("srv198878.cpu.load", "srv255542.cpu.load"), ("srv198879.cpu.load", "srv255543.cpu.load")],
+    "hi32_fnv64a": [("srv59798.cpu.load", "srv139139.cpu.load"), ("srv25437.cpu.load", "srv161497.cpu.load")],
+    "fold_fnv64a": [("srv57552.cpu.load", "srv82621.cpu.load"), ("srv187138.cpu.load", "srv232771.cpu.load")],
+}
+
+
+def gen_narrow(rng, kind):
+    c = {"kind": "table", "ll": "none", "lm": "none", "order": True, "blacklist": [], "rewriters": [], "aggs": [],
+         "routes": [{"kind": "capture", "m": {"prefix": "", "notPrefix": "", "sub": "", "notSub": "", "regex": "", "notRegex": ""}, "dests": []}],
+         "events": [], "narrow": kind}
+    pairs = list(NARROW[kind])
+    rng.shuffle(pairs)
+    for a, b in pairs:
+        hi = rng.randrange(1000, 2000)
+        lo = rng.randrange(10, 500)
+        for n, ts in [(a, hi), (b, lo), (b, lo), (a, hi - 1), (a, hi + 1), (b, lo + 1), (b, hi), (a, hi + 1), (b, hi + 2)]:
+            c["events"].append({"t": "line", "b": ("%s %d %d" % (n, rng.randrange(100), ts)).encode().hex()})
+    return c
+
+
 def gen(rng, tier):
     n = 150 if tier == "quick" else 1500
     m = 150 if tier == "quick" else 1500
     st = [gen_stampede(rng, 8, 100) for _ in range(12 if tier == "quick" else 120)]
-    return [gen_seq(rng) for _ in range(n)] + [gen_conc(rng) for _ in range(m)] + st
+    narrow = [gen_narrow(rng, k) for k in sorted(NARROW)]
+    return narrow + [gen_seq(rng) for _ in range(n)] + [gen_conc(rng) for _ in range(m)] + st
 
 
 MASK = T.MASK_COUNTERS | T.MASK_BAD | T.MASK_ROUTES | T.MASK_LINES
@@ -123,6 +150,8 @@ def distribution(cases):
     d = collections.Counter()
     for c in cases:
         d["kind=" + c["kind"]] += 1
+        if c.get("narrow"):
+            d["names_colliding_under_" + c["narrow"]] += 1
         if c["kind"] == "conc":
             d["threads=%d" % len(c["threads"])] += 1
     return dict(d)
